@@ -1,8 +1,9 @@
 package props
 
 import (
-	"math"
 	"fmt"
+	"math"
+	"strings"
 	"testing"
 	"time"
 
@@ -196,6 +197,7 @@ func runC03(t *testing.T, seed uint64, m *Mask) *Report {
 			replies map[int32]int
 			other   int
 			readEnd bool
+			readErr error
 			sess    erpc.Session
 			key     string
 		}
@@ -231,6 +233,7 @@ func runC03(t *testing.T, seed uint64, m *Mask) *Report {
 					}
 					if msg.Err != nil {
 						x.readEnd = true
+						x.readErr = msg.Err
 						return
 					}
 					simrt.Yield()
@@ -340,6 +343,16 @@ func runC03(t *testing.T, seed uint64, m *Mask) *Report {
 				}
 			}
 			info := fmt.Sprintf("proto=%s sess=%d up=%v", proto, s, up)
+			// the reading side of this connection gave up although the server's session is alive and well: the
+			// server wrote a frame that its own wire protocol cannot unpack (the caller of that CALL never gets a
+			// REPLY carrying its sequence number)
+			if x.sess.Health() && x.readErr != nil {
+				if es := x.readErr.Error(); !strings.Contains(es, "EOF") && !strings.Contains(es, "closed") && !strings.Contains(es, "reset") && !strings.Contains(es, "exceeds") {
+					// ("exceeds ...": the reading end of the harness lives in the same process and shares the process-wide
+					// size limit of the run - an oversize reply it refuses to read is not the server's fault)
+					e.Fail("C03/reply-frame-unreadable:"+proto, "%s: the server's session is healthy but a frame it wrote could not be unpacked by the same protocol: %v", info, x.readErr)
+				}
+			}
 			for seq, n := range sentAny {
 				if h := hcount[key{x.key, seq}]; h > n {
 					e.Fail("C03/handled-more-than-once", "%s: %d frame(s) with seq %d but %d handler invocations", info, n, seq, h)
